@@ -21,11 +21,11 @@ FabsKey(k) == IF k < 0 THEN -k ELSE k
 
 \* is_almost(v1, v2, eps): the verdict for a difference known to be at most / more than eps
 \* cls = "within": |v1 - v2| <= eps exactly; "beyond": |v1 - v2| > the f32 after eps;
-\*       "edge": in between (either answer); "nan": an argument is NaN (never almost equal)
+\*       "edge": in between (either answer); "nan": an argument is NaN (not specified)
 AlmostOK(cls, res) ==
   CASE cls = "within" -> res = TRUE
     [] cls = "beyond" -> res = FALSE
-    [] cls = "nan"    -> res = FALSE
+    [] cls = "nan"    -> TRUE        \* NaN arguments: nothing is specified
     [] OTHER          -> TRUE
 
 \* linear_interp(y0, y1, f) for f in [0, 1] stays in the hull of its end points up to the rounding of the
